@@ -159,3 +159,12 @@ func waitInstanceDeleted(uuid, name string) bool {
 	}
 	return false
 }
+
+// settleInproc waits for background processing of the world's labelmap / annotation instances.
+func settleInproc(w *World) {
+	for _, n := range []string{"lm", "ann"} {
+		if (n == "lm" && w.hasLM) || (n == "ann" && w.hasAnn) {
+			datastore.BlockOnUpdating(dvid.UUID(w.root), dvid.InstanceName(n))
+		}
+	}
+}
